@@ -393,6 +393,13 @@ func scenarios(tier string, yield func(any) bool) {
 	// bursts beyond the channel capacities (5 per association, 10 in the loop), socket failure
 	scripts = append(scripts, "AAAAAAA", "AAAAAABAAAAAA", "AAAAAAAAAAAAqA", "AFA", "ABFqA", "AqFA")
 	modes := []Scn{{Mode: "echo"}, {Mode: "readk", K: 1}, {Mode: "readk", K: 2}, {Mode: "small"}, {Mode: "never"}}
+	if os.Getenv("VERIF_C09_SUBSET") == "stream" {
+		// as the datagram part of C01 (a client's datagrams are its byte stream: intact, once,
+		// in order, through the same Connection the stream handlers use): the handlers that
+		// read to the end, bursts that queue up before the handler reads, two clients
+		modes = []Scn{{Mode: "echo"}, {Mode: "small"}, {Mode: "readk", K: 2}}
+		scripts = []string{"A", "AA", "AB", "ABA", "AqA", "AAAAAAA"}
+	}
 	for _, s := range scripts {
 		for _, m := range modes {
 			if only := os.Getenv("VERIF_ONLY"); only != "" && only != s+","+m.Mode {
